@@ -3,6 +3,11 @@
   (code-independent).  `frame y z` has columns  y × z,  y,  z.
 -/
 import Lib.SO3
+import Mathlib.Analysis.SpecialFunctions.Sqrt
+import Mathlib.Analysis.Calculus.Deriv.Add
+import Mathlib.Analysis.Calculus.Deriv.Mul
+import Mathlib.Analysis.Calculus.Deriv.Inv
+import Mathlib.Analysis.Calculus.Deriv.Pow
 
 namespace Triad
 open Rot Matrix
@@ -100,5 +105,138 @@ theorem alt_isRot (z : Fin 3 → ℝ) (c s n : ℝ) (hz : nsq z = 1) (hn : n ^ 2
 theorem main_y_perp_heading (z : Fin 3 → ℝ) (c s n : ℝ) :
     dot3 (fun i => w z c s i / n) (xC c s) = 0 :=
   dot3_div_left _ _ n (w_perp_xC z c s)
+
+end Triad
+
+/-! ## The formulas the controllers use (code-shaped): thrust axis with a 1e-3 zero-thrust guard, body y axis with a
+    1e-3 guard and a Gram–Schmidt fallback.  `tol3` is the double nearest 1e-3. -/
+namespace Triad
+open Rot
+
+noncomputable def zAxis (T0 T1 T2 : ℝ) : Fin 3 → ℝ :=
+  if (1152921504606847:ℝ) * 2 ^ (-60:ℤ) < Real.sqrt (T0 * T0 + T1 * T1 + T2 * T2) then
+    ![T0 / Real.sqrt (T0 * T0 + T1 * T1 + T2 * T2), T1 / Real.sqrt (T0 * T0 + T1 * T1 + T2 * T2), T2 / Real.sqrt (T0 * T0 + T1 * T1 + T2 * T2)]
+  else ![0, 0, 1]
+
+theorem nsq_zAxis (T0 T1 T2 : ℝ) : nsq (zAxis T0 T1 T2) = 1 := by
+  unfold zAxis
+  split_ifs with h
+  · have hpos : 0 < Real.sqrt (T0 * T0 + T1 * T1 + T2 * T2) := lt_trans (by norm_num) h
+    have h2 := Real.sq_sqrt (le_of_lt (Real.sqrt_pos.mp hpos))
+    simp only [nsq, Matrix.cons_val_zero, Matrix.cons_val_one, Matrix.cons_val_two, Matrix.head_cons, Matrix.tail_cons]
+    rw [div_pow, div_pow, div_pow, ← add_div, ← add_div, h2]
+    have : T0 ^ 2 + T1 ^ 2 + T2 ^ 2 = T0 * T0 + T1 * T1 + T2 * T2 := by ring
+    rw [this]; exact div_self (by rw [← h2]; positivity)
+  · simp [nsq]
+
+/-- above the guard the axis is the normalised force -/
+theorem zAxis_main (T0 T1 T2 : ℝ) (h : (1152921504606847:ℝ) * 2 ^ (-60:ℤ) < Real.sqrt (T0 * T0 + T1 * T1 + T2 * T2)) (i : Fin 3) :
+    zAxis T0 T1 T2 i * Real.sqrt (T0 * T0 + T1 * T1 + T2 * T2) = ![T0, T1, T2] i := by
+  have hpos : Real.sqrt (T0 * T0 + T1 * T1 + T2 * T2) ≠ 0 := ne_of_gt (lt_trans (by norm_num) h)
+  unfold zAxis; rw [if_pos h]
+  fin_cases i <;> simp only [Matrix.cons_val_zero, Matrix.cons_val_one, Matrix.cons_val_two, Matrix.head_cons, Matrix.tail_cons, Fin.zero_eta, Fin.mk_one, Fin.reduceFinMk] <;> exact div_mul_cancel₀ _ hpos
+
+noncomputable def yAxis (z0 z1 z2 c s : ℝ) : Fin 3 → ℝ :=
+  if (1152921504606847:ℝ) * 2 ^ (-60:ℤ) < Real.sqrt (z2 * s * (z2 * s) + z2 * c * (z2 * c) + (z0 * s - z1 * c) * (z0 * s - z1 * c)) then
+    ![-(z2 * s / Real.sqrt (z2 * s * (z2 * s) + z2 * c * (z2 * c) + (z0 * s - z1 * c) * (z0 * s - z1 * c))),
+      z2 * c / Real.sqrt (z2 * s * (z2 * s) + z2 * c * (z2 * c) + (z0 * s - z1 * c) * (z0 * s - z1 * c)),
+      (z0 * s - z1 * c) / Real.sqrt (z2 * s * (z2 * s) + z2 * c * (z2 * c) + (z0 * s - z1 * c) * (z0 * s - z1 * c))]
+  else
+    ![-((s + (c * z1 - s * z0) * z0) / Real.sqrt ((s + (c * z1 - s * z0) * z0) * (s + (c * z1 - s * z0) * z0) + (c - (c * z1 - s * z0) * z1) * (c - (c * z1 - s * z0) * z1) + (c * z1 - s * z0) * z2 * ((c * z1 - s * z0) * z2))),
+      (c - (c * z1 - s * z0) * z1) / Real.sqrt ((s + (c * z1 - s * z0) * z0) * (s + (c * z1 - s * z0) * z0) + (c - (c * z1 - s * z0) * z1) * (c - (c * z1 - s * z0) * z1) + (c * z1 - s * z0) * z2 * ((c * z1 - s * z0) * z2)),
+      -((c * z1 - s * z0) * z2 / Real.sqrt ((s + (c * z1 - s * z0) * z0) * (s + (c * z1 - s * z0) * z0) + (c - (c * z1 - s * z0) * z1) * (c - (c * z1 - s * z0) * z1) + (c * z1 - s * z0) * z2 * ((c * z1 - s * z0) * z2)))]
+
+/-- the y axis is a unit vector perpendicular to z, for EVERY unit z and unit heading (both branches) -/
+theorem yAxis_spec (z0 z1 z2 c s : ℝ) (hz : nsq ![z0, z1, z2] = 1) (hcs : c ^ 2 + s ^ 2 = 1) :
+    nsq (yAxis z0 z1 z2 c s) = 1 ∧ dot3 (yAxis z0 z1 z2 c s) ![z0, z1, z2] = 0 := by
+  set z : Fin 3 → ℝ := ![z0, z1, z2] with hzdef
+  have hA : z2 * s * (z2 * s) + z2 * c * (z2 * c) + (z0 * s - z1 * c) * (z0 * s - z1 * c) = nsq (w z c s) := by
+    simp [nsq, w, hzdef]; ring
+  have hB : (s + (c * z1 - s * z0) * z0) * (s + (c * z1 - s * z0) * z0) + (c - (c * z1 - s * z0) * z1) * (c - (c * z1 - s * z0) * z1)
+      + (c * z1 - s * z0) * z2 * ((c * z1 - s * z0) * z2) = nsq (yalt z c s) := by
+    simp [nsq, yalt, dot3, yC, hzdef]; ring
+  unfold yAxis
+  split_ifs with h
+  · rw [hA] at h ⊢
+    have hpos : 0 < Real.sqrt (nsq (w z c s)) := lt_trans (by norm_num) h
+    have h2 := Real.sq_sqrt (nsq_nonneg (w z c s))
+    have hv : (![-(z2 * s / Real.sqrt (nsq (w z c s))), z2 * c / Real.sqrt (nsq (w z c s)), (z0 * s - z1 * c) / Real.sqrt (nsq (w z c s))] : Fin 3 → ℝ)
+        = fun i => w z c s i / Real.sqrt (nsq (w z c s)) := by
+      funext i; fin_cases i <;> simp [w, hzdef] <;> ring
+    rw [hv]
+    exact ⟨nsq_div _ _ h2 (ne_of_gt hpos), dot3_div_left _ _ _ (w_perp_z z c s)⟩
+  · rw [hA] at h
+    rw [hB]
+    have hsmall : nsq (w z c s) < 1 := by
+      have h0 := Real.sqrt_nonneg (nsq (w z c s))
+      have h2 := Real.sq_sqrt (nsq_nonneg (w z c s))
+      have hle : Real.sqrt (nsq (w z c s)) ≤ (1152921504606847:ℝ) * 2 ^ (-60:ℤ) := not_lt.mp h
+      have : Real.sqrt (nsq (w z c s)) ^ 2 ≤ ((1152921504606847:ℝ) * 2 ^ (-60:ℤ)) ^ 2 := pow_le_pow_left₀ h0 hle 2
+      rw [h2] at this
+      refine lt_of_le_of_lt this ?_
+      norm_num
+    have hpos := nsq_yalt_pos z c s hz hcs hsmall
+    have hsq : 0 < Real.sqrt (nsq (yalt z c s)) := Real.sqrt_pos.mpr hpos
+    have h2 := Real.sq_sqrt (le_of_lt hpos)
+    have hv : (![-((s + (c * z1 - s * z0) * z0) / Real.sqrt (nsq (yalt z c s))), (c - (c * z1 - s * z0) * z1) / Real.sqrt (nsq (yalt z c s)),
+          -((c * z1 - s * z0) * z2 / Real.sqrt (nsq (yalt z c s)))] : Fin 3 → ℝ)
+        = fun i => yalt z c s i / Real.sqrt (nsq (yalt z c s)) := by
+      funext i; fin_cases i <;> simp [yalt, dot3, yC, hzdef] <;> ring
+    rw [hv]
+    exact ⟨nsq_div _ _ h2 (ne_of_gt hsq), dot3_div_left _ _ _ (yalt_perp_z z c s hz)⟩
+
+/-- in the main branch the y axis is perpendicular to the heading vector (cos, sin, 0) -/
+theorem yAxis_perp_heading (z0 z1 z2 c s : ℝ)
+    (h : (1152921504606847:ℝ) * 2 ^ (-60:ℤ) < Real.sqrt (z2 * s * (z2 * s) + z2 * c * (z2 * c) + (z0 * s - z1 * c) * (z0 * s - z1 * c))) :
+    dot3 (yAxis z0 z1 z2 c s) ![c, s, 0] = 0 := by
+  unfold yAxis; rw [if_pos h]
+  simp [dot3]; ring
+
+/-- the frame the controllers hand to the quaternion extraction is a proper rotation, whatever the force and heading -/
+theorem frame_yAxis_zAxis_isRot (T0 T1 T2 c s : ℝ) (hcs : c ^ 2 + s ^ 2 = 1) :
+    IsRot (frame (yAxis (zAxis T0 T1 T2 0) (zAxis T0 T1 T2 1) (zAxis T0 T1 T2 2) c s) (zAxis T0 T1 T2)) := by
+  have hz := nsq_zAxis T0 T1 T2
+  have hz' : nsq ![zAxis T0 T1 T2 0, zAxis T0 T1 T2 1, zAxis T0 T1 T2 2] = 1 := by simpa [nsq] using hz
+  obtain ⟨h1, h2⟩ := yAxis_spec _ _ _ c s hz' hcs
+  refine frame_isRot _ _ h1 hz ?_
+  simpa [dot3] using h2
+
+
+/-! ## rotation rate of a thrust axis along a trajectory -/
+
+/-- derivative of the direction of a moving non-zero vector: (u/‖u‖)' = (u' − z (z·u'))/‖u‖ with z = u/‖u‖ -/
+theorem hasDerivAt_direction (u : ℝ → Fin 3 → ℝ) (u' : Fin 3 → ℝ) (t : ℝ)
+    (hu : ∀ i, HasDerivAt (fun τ => u τ i) (u' i) t) (h0 : nsq (u t) ≠ 0) (i : Fin 3) :
+    HasDerivAt (fun τ => u τ i / Real.sqrt (nsq (u τ)))
+      ((u' i - (u t i / Real.sqrt (nsq (u t))) * dot3 (fun k => u t k / Real.sqrt (nsq (u t))) u') / Real.sqrt (nsq (u t))) t := by
+  have hN : HasDerivAt (fun τ => nsq (u τ)) (2 * dot3 (u t) u') t := by
+    have h := HasDerivAt.add (HasDerivAt.add ((hu 0).pow 2) ((hu 1).pow 2)) ((hu 2).pow 2)
+    refine (show HasDerivAt (fun τ => nsq (u τ)) _ t from h).congr_deriv ?_
+    simp [dot3]; ring
+  have hS := hN.sqrt h0
+  have hpos : 0 < nsq (u t) := lt_of_le_of_ne (nsq_nonneg _) (Ne.symm h0)
+  have hs0 : Real.sqrt (nsq (u t)) ≠ 0 := ne_of_gt (Real.sqrt_pos.mpr hpos)
+  have h2 := Real.sq_sqrt (le_of_lt hpos)
+  have := (hu i).div hS hs0
+  refine this.congr_deriv ?_
+  simp only [dot3]
+  field_simp
+
+
+/-- roll and pitch rate of a frame (x, y, z) whose z axis follows u/‖u‖: with ż = (u' − z (z·u'))/n and y, x ⟂ z,
+    p = −y·ż = −(y·u')/n and q = x·ż = (x·u')/n -/
+theorem rates_of_direction (x y z u' : Fin 3 → ℝ) (n : ℝ) (hyz : dot3 y z = 0) (hxz : dot3 x z = 0) :
+    -dot3 y (fun i => (u' i - z i * dot3 z u') / n) = -(dot3 y u') / n
+      ∧ dot3 x (fun i => (u' i - z i * dot3 z u') / n) = dot3 x u' / n := by
+  unfold dot3 at *
+  constructor
+  · have : y 0 * ((u' 0 - z 0 * (z 0 * u' 0 + z 1 * u' 1 + z 2 * u' 2)) / n) + y 1 * ((u' 1 - z 1 * (z 0 * u' 0 + z 1 * u' 1 + z 2 * u' 2)) / n)
+        + y 2 * ((u' 2 - z 2 * (z 0 * u' 0 + z 1 * u' 1 + z 2 * u' 2)) / n)
+        = ((y 0 * u' 0 + y 1 * u' 1 + y 2 * u' 2) - (y 0 * z 0 + y 1 * z 1 + y 2 * z 2) * (z 0 * u' 0 + z 1 * u' 1 + z 2 * u' 2)) / n := by ring
+    rw [this, hyz]; ring
+  · have : x 0 * ((u' 0 - z 0 * (z 0 * u' 0 + z 1 * u' 1 + z 2 * u' 2)) / n) + x 1 * ((u' 1 - z 1 * (z 0 * u' 0 + z 1 * u' 1 + z 2 * u' 2)) / n)
+        + x 2 * ((u' 2 - z 2 * (z 0 * u' 0 + z 1 * u' 1 + z 2 * u' 2)) / n)
+        = ((x 0 * u' 0 + x 1 * u' 1 + x 2 * u' 2) - (x 0 * z 0 + x 1 * z 1 + x 2 * z 2) * (z 0 * u' 0 + z 1 * u' 1 + z 2 * u' 2)) / n := by ring
+    rw [this, hxz]; ring
 
 end Triad
